@@ -247,7 +247,10 @@ def check(model, rep, tier):
     ok = False
     facts = {'slice': core.norm(sl)}
     gd0 = _guards(db.node, sl)
-    if any(p == 'T' and 'tokenize.INDENT' in t and '==' in t for p, t in gd0):
+    from sa import formula as _f
+    cf = _f.condition_formula(db.node, sl, lambda e: core.norm(e))
+    if any(a.endswith('== tokenize.INDENT') and _f.implies(cf, _f.atom(a))[0]
+           for a in cf.atoms):
       # an INDENT token consists of whitespace only (tokenize): token-aware edit
       rep.hold('SRC-SLICE', site, {'slice': core.norm(sl), 'token_aware': gd0})
       continue
@@ -329,9 +332,10 @@ def check(model, rep, tier):
             '_parse_lambda can finish without returning or raising',
             {'fallthrough_from': [g.nodes[p][0] for p in falls]}, line=pl.node.lineno)
   raises = [n for n in ast.walk(pl.node) if isinstance(n, ast.Raise)]
+  excs = [tpl.expand(pl, x.exc, x) if x.exc is not None else None for x in raises]
   ok = len(raises) >= 2 and all(
-      isinstance(x.exc, ast.Call) and core.dotted(x.exc.func) ==
-      'errors.UnsupportedLanguageElementError' for x in raises)
+      isinstance(x, ast.Call) and core.dotted(x.func) ==
+      'errors.UnsupportedLanguageElementError' for x in excs)
   rep.check(ok, 'SRC-LAMBDA', '%s:explicit-error' % pl.site,
             'ambiguity / no match must raise UnsupportedLanguageElementError',
             {'raises': [core.norm(x.exc)[:60] for x in raises]}, line=pl.node.lineno)
